@@ -29,6 +29,8 @@ TEMPLATES = [
     "finite",
     "duplicates",
     "linear",
+    "left_corner_cycle",
+    "left_corner_cycle",
 ]
 
 
@@ -204,6 +206,30 @@ def gen_grammar(rng, template=None, max_nt=5, max_t=3, max_rules=11, max_body=3,
         for _ in range(rng.randint(1, 3)):
             w, h, bd = rng.choice(rules)
             rules.append([rng.randint(1, wmax), h, bd])
+    elif template == "left_corner_cycle":
+        # mutual (indirect) left recursion: a cycle X0 -> X1 ... -> Xk-1 -> X0 through FIRST body positions,
+        # mixing unary and longer rules, entered from different members, with further left-corner children
+        k = rng.randint(2, min(4, nN))
+        cyc = rng.sample(Ns, k)
+        for i, X in enumerate(cyc):
+            Y = cyc[(i + 1) % k]
+            tail = [rng.choice(Ts) for _ in range(rng.randint(0, 2))]
+            if rng.random() < 0.25:
+                tail = [rng.choice(Ns)] + tail
+            R(X, Y, *tail)
+            if rng.random() < 0.7:
+                R(X, rng.choice(Ts), *([rng.choice(Ns + Ts)] if rng.random() < 0.4 else []))
+        others = [X for X in Ns if X not in cyc] or cyc
+        # extra left-corner children of cycle members, and entries into the cycle at different members
+        for _ in range(rng.randint(1, 3)):
+            R(rng.choice(cyc), rng.choice(others), *[rng.choice(Ts) for _ in range(rng.randint(0, 2))])
+        for _ in range(rng.randint(1, 3)):
+            R(rng.choice(others + [S]), rng.choice(Ts), rng.choice(cyc), *[rng.choice(Ts) for _ in range(rng.randint(0, 1))])
+        R(S, rng.choice(cyc), *[rng.choice(Ts) for _ in range(rng.randint(0, 1))])
+        for X in others:
+            R(X, rng.choice(Ts))
+        for _ in range(rng.randint(0, 2)):
+            rand_rule(0.1)
     elif template == "linear":
         # right- or left-linear grammar of a random automaton
         left = rng.random() < 0.5
